@@ -446,3 +446,83 @@ func (r *Run) nodeChecksIn(fn *ssa.Function) (int, int) {
 	}
 	return nLookup, nAssert
 }
+
+// ruleBodyClosed (R5.body): after a successful (*http.Client).Do the response body is closed on
+// every path to a return — directly or by a defer registered before that return. A path that
+// skips the close keeps the connection out of the pool; with a bounded pool a handful of such
+// answers (non-2xx, unreadable body) hang every later sub-request to that service.
+func ruleBodyClosed(r *Run) {
+	const rule = "R5.body"
+	n := 0
+	for _, fn := range r.P.Funcs {
+		if topFn(fn).Pkg == nil || shortPkg(topFn(fn).Pkg.Pkg.Path()) != "queryer" {
+			continue
+		}
+		for _, ins := range allInstrs(fn) {
+			call, ok := ins.(*ssa.Call)
+			if !ok || calleeName(&call.Call) != "(*net/http.Client).Do" {
+				continue
+			}
+			n++
+			// the success side of the error test
+			var okSide *ssa.BasicBlock
+			for _, ref := range *call.Referrers() {
+				if ex, isEx := ref.(*ssa.Extract); isEx && ex.Index == 1 {
+					for _, t := range failureTests(ex) {
+						okSide = t.ok
+					}
+				}
+			}
+			if okSide == nil {
+				r.Bad(rule, fnName(fn), "response body closed", r.P.pos(call.Pos()), "the error of client.Do is not tested, so the success side cannot be identified")
+				continue
+			}
+			isClose := func(i ssa.Instruction) bool {
+				ci, isCall := i.(ssa.CallInstruction)
+				return isCall && ci.Common().IsInvoke() && ci.Common().Method.Name() == "Close" && strings.Contains(ci.Common().Value.Type().String(), "io.ReadCloser")
+			}
+			good, bad := mustPass(okSide, 0, isClose)
+			site := r.P.pos(call.Pos())
+			if !good && bad != nil {
+				site = r.P.pos(bad.Pos())
+			}
+			r.Check(good, rule, fnName(fn), "response body closed", site,
+				"every path from a successful Do to a return closes resp.Body (a deferred close counts from where it is registered)",
+				"a path from a successful client.Do to a return does not close the response body: its connection never returns to the pool — after a few such answers (an outage answered with 503 pages) later sub-requests to that service wait for a connection forever")
+		}
+	}
+	r.AtLeast(rule, "client.Do call sites", n, 1)
+}
+
+// ruleAnswerDecoder (R13i.decoder): the types a downstream answer is decoded into do not
+// define their own UnmarshalJSON. With the plain decoder a body that is not a JSON array of
+// objects is a decode error (a failure signal, C09); a custom decoder can quietly accept a bare
+// object, a string or `null`.
+func ruleAnswerDecoder(r *Run) {
+	const rule = "R13i.decoder"
+	n := 0
+	for _, tn := range []string{"Response", "Responses", "ServerSubMsg", "ServerSubErorrMsg"} {
+		pkg := r.P.ByPath[modPath+"/requests"]
+		if pkg == nil {
+			continue
+		}
+		obj := pkg.Types.Scope().Lookup(tn)
+		if obj == nil {
+			continue
+		}
+		n++
+		custom := false
+		for _, t := range []types.Type{obj.Type(), types.NewPointer(obj.Type())} {
+			ms := types.NewMethodSet(t)
+			for i := 0; i < ms.Len(); i++ {
+				if ms.At(i).Obj().Name() == "UnmarshalJSON" {
+					custom = true
+				}
+			}
+		}
+		r.Check(!custom, rule, "requests."+tn, "decoded by encoding/json itself", r.P.pos(obj.Pos()),
+			"no UnmarshalJSON method: a body of another shape is a decode error",
+			"requests."+tn+" defines its own UnmarshalJSON: what counts as a well-formed downstream answer is now decided by that method — a bare object or an error page that happens to be JSON can be taken for an answer without data and without errors")
+	}
+	r.AtLeast(rule, "answer types", n, 2)
+}
